@@ -703,10 +703,16 @@ func sigT(in input, kind string) string {
 }
 
 // judgeTransport compares an observed transport with the reference for an input that came up.
-func (e *env) judgeTransport(d caseDesc, form string, nat *ref, a string, o obs, so *startObs) {
+// lenient: the input was expected to be rejected, but what came up sits exactly at an endpoint the
+// text of the address names (a forgiving reading of a misplaced host:port / path): then only the
+// transport is compared.
+func (e *env) judgeTransport(d caseDesc, form string, nat *ref, a string, o obs, so *startObs, lenient bool) {
 	in := d.In
 	d.Form = form
-	if nat == nil || in.Want == "reject" {
+	if nat != nil && in.Want == "reject" && lenient {
+		e.rec.Seen("lenient_readings_accepted", in.Pos+":"+in.Class)
+	}
+	if nat == nil || (in.Want == "reject" && !lenient) {
 		kind := "accepted"
 		if o.Kind != "" && asksEncryption(a) && !o.TLS {
 			kind = "unencrypted"
@@ -828,23 +834,39 @@ func (e *env) startServer(d caseDesc) {
 		}
 		so.Bound = bound
 		var o obs
+		lenient := false
 		switch srv.(type) {
 		case *server.IoServer:
 			o = probeStdio(stdinW, stdoutR, nat != nil && nat.TLS)
 		default:
+			named := namedEndpoints(a, nat, e.tmp)
 			target := where
 			tnet := network
 			if bound != "" {
 				target = bound
+			} else if target == "" && len(named) > 0 {
+				target = named[0]
 			}
-			if tnet == "" {
+			if tnet == "" && nat != nil {
+				tnet = strings.SplitN(nat.Net, "|", 2)[0]
+			}
+			if tnet == "" || tnet == "stdio" || tnet == "-" {
 				// unknown scheme that came up: find out what it is, on whatever it bound
 				tnet = "tcp"
 				if _, ok := srv.(*server.PacketServer); ok {
 					tnet = "udp"
 				}
 			}
-			o = e.classifyEndpoint(tnet, target, nat)
+			if target != "" {
+				o = e.classifyEndpoint(tnet, target, nat)
+			} else {
+				o = obs{Detail: "Startup returned nil; the address names no endpoint and the socket is not reachable from the harness"}
+			}
+			if bound != "" {
+				lenient = namedHit(tnet, bound, named)
+			} else {
+				lenient = o.Kind != "" && namedHit(tnet, target, named)
+			}
 		}
 		so.Observed = &o
 		e.rec.Seen("observed_transports", in.Pos+":"+o.String())
@@ -853,7 +875,7 @@ func (e *env) startServer(d caseDesc) {
 			d.Form = "start"
 			e.viol(sigT(in, "listens-elsewhere"), d, so)
 		}
-		e.judgeTransport(d, "start", nat, a, o, so)
+		e.judgeTransport(d, "start", nat, a, o, so, lenient)
 		if nat != nil && in.Want != "reject" && so.Secure != nil && so.Secure.(bool) != nat.TLS {
 			d.Form = "start"
 			e.viol(sigT(in, "secure-flag-mismatch"), d, so)
@@ -1013,7 +1035,12 @@ func (e *env) recorderFor(nat *ref, tmplAddr string, n int, hold bool) (*recSetu
 	case "unix", "unixpacket", "unixgram":
 		a := resolve(tmplAddr, 0, 0, e.tmp, n)
 		_, where := endpointOf(nat, a, e.tmp)
-		if where == "" || strings.HasSuffix(where, "/") {
+		if where == "" {
+			if nm := namedEndpoints(a, nat, e.tmp); len(nm) > 0 {
+				where = nm[0]
+			}
+		}
+		if where == "" || strings.HasSuffix(where, "/") || !strings.HasPrefix(filepath.Clean(where), e.tmp+"/") {
 			// no path in the address: nothing to listen on
 			rs.rec = &recorder{C: make(chan flight, 1)}
 			break
@@ -1165,7 +1192,7 @@ func (e *env) startUpstream(d caseDesc) {
 	e.rec.Seen("start_outcomes", in.Pos+":"+in.Class+":emitted")
 	e.rec.Seen("observed_transports", in.Pos+":"+o.String())
 	e.rec.Stat("start_probed_endpoints", 1)
-	e.judgeTransport(d, "start", nat, a, o, so)
+	e.judgeTransport(d, "start", nat, a, o, so, true) // the recorder sits at the endpoint the text names
 }
 
 func (e *env) startListener(d caseDesc) {
@@ -1280,7 +1307,7 @@ func (e *env) startListener(d caseDesc) {
 			o := obs{Kind: "stdio", Net: "stdio", Detail: "upstream saw " + so.Flight.Outer}
 			so.Observed = &o
 			e.rec.Seen("observed_transports", in.Pos+":"+o.String())
-			e.judgeTransport(d, "start", nat, a, o, so)
+			e.judgeTransport(d, "start", nat, a, o, so, true)
 			return
 		}
 		if bound == "" {
@@ -1327,7 +1354,7 @@ func (e *env) startListener(d caseDesc) {
 		so.Observed = &o
 		e.rec.Seen("observed_transports", in.Pos+":"+o.String())
 		e.rec.Stat("start_probed_endpoints", 1)
-		e.judgeTransport(d, "start", nat, a, o, so)
+		e.judgeTransport(d, "start", nat, a, o, so, namedHit(dn, bound, namedEndpoints(a, nat, e.tmp)))
 		if in.Class == "documented" && in.Fwd != "" && !so.DirectHit {
 			e.viol(sigT(in, "forward-not-tried-first"), d, so)
 		}
@@ -1395,7 +1422,7 @@ func (e *env) startChannel(d caseDesc) {
 	if nat != nil && nat.Kind == "socks" {
 		o := obs{Kind: "socks", Net: "-", Detail: "in-process SOCKS5 pipe"}
 		so.Observed = &o
-		e.judgeTransport(d, "start", nat, a, o, so)
+		e.judgeTransport(d, "start", nat, a, o, so, true)
 		return
 	}
 	// the connection must have arrived at the recorder that sits at the documented endpoint
@@ -1407,7 +1434,7 @@ func (e *env) startChannel(d caseDesc) {
 		so.Observed = &o
 		e.rec.Seen("observed_transports", in.Pos+":"+o.String())
 		e.rec.Stat("start_probed_endpoints", 1)
-		e.judgeTransport(d, "start", nat, a, o, so)
+		e.judgeTransport(d, "start", nat, a, o, so, true)
 	case <-time.After(watchdog):
 		e.rec.Inconclusive("watchdog: channel opened a connection that did not arrive at the target", d)
 	}
